@@ -97,12 +97,20 @@ def run(chk, program, tier):
     bad13 = None
     exact = K.impls(program, '_receive_impl')
     read_n = None
+    partial = None
     for q in exact:
         g = K.cfg_of(program, q)
+        feeds_tcp = any(True for _ in K.nodes_calling(g, lambda c: isinstance(c.func, ast.Attribute) and c.func.attr == 'decode_tcp'))
         for nid, c, meth in K.reader_reads(g):
             if meth == 'readexactly':
                 read_n = K.const_int_in(program, 'ioclient', c.args[0])
-    if read_n is None:
+            elif meth == 'read' and feeds_tcp:
+                partial = c
+    if read_n is None and partial is not None:
+        # a witness: the client that hands its bytes to decode_tcp takes them with read(n), which returns as soon as anything has arrived
+        chk.violation('WF-LEN13', 'client::readexactly', file='nmea2000/ioclient.py', line=partial.lineno, expected='the EByte client reads exactly 13 bytes per packet',
+                      found=f"read({ast.unparse(partial.args[0]) if partial.args else ''})", detail='read(n) may return fewer than n bytes when a packet is split across TCP segments: a short packet is decoded and every later window is shifted')
+    elif read_n is None:
         # no `readexactly(<integer literal>)` in any _receive_impl: the framing constant is spelt or placed differently; nothing was read
         chk.unknown('WF-LEN13', 'client::readexactly', 'no readexactly(<literal>) found in a _receive_impl: how the EByte client frames the stream was not read', 'nmea2000/ioclient.py', 0)
     else:
